@@ -737,7 +737,7 @@ def gen_C08(o, rng, tier):
     u = list(range(nu))
     caps = [(3, 3), (3, 4), (4, 3), (0, 3), (3, 0), (0, 0), (1, 2)] if tier == "quick" else \
         [(4, 4), (4, 6), (6, 4), (0, 4), (4, 0), (0, 0), (1, 3), (3, 1)]
-    scripts = ["hnhnhnhnhnhnhn", "cf", "hnhcnhf", "x", "dnnDn", "nnhx"]
+    scripts = ["hnhnhnhnhnhnhn", "cf", "hnhcnhf", "x", "dnnDn", "nnhx", "z", "nz", "t0hn", "t1hnn", "ct2hn", "nt1"]
     for (c0, c1) in caps:
         for a in layouts(min(c0, nu), u):
             for b in layouts(min(c1, nu), u):
@@ -776,12 +776,19 @@ def gen_C09(o, rng, tier):
                     for k in range(0, len(lay) + 1):
                         o.op(f"m0 iter {kind} 0 {'n' * k}c{'n' * (len(lay) - k + 1)}", test=True)
                         o.op(f"m0 iter {kind} 0 {'n' * k}x", test=True)
+                        # std's provided methods: nth(j) and last() after k steps
+                        o.op(f"m0 iter {kind} 0 {'n' * k}zn", test=True)
+                        for j in range(0, len(lay) - k + 2):
+                            o.op(f"m0 iter {kind} 0 {'n' * k}t{j}lhnl", test=True)
                     sweep(o, "m0", u)
                 full = "lh" + "nlh" * (len(lay) + 2)
                 o.op(f"s0 iter {full}", test=True)
                 for k in range(0, len(lay) + 1):
                     o.op(f"s0 iter {'n' * k}c{'n' * (len(lay) - k + 1)}", test=True)
                     o.op(f"s0 iter {'n' * k}x", test=True)
+                    o.op(f"s0 iter {'n' * k}zn", test=True)
+                    for j in range(0, len(lay) - k + 2):
+                        o.op(f"s0 iter {'n' * k}t{j}lhnl", test=True)
                 o.end()
     umap_product(o, 2 if tier == 'quick' else 3, {'iter'})
 
